@@ -108,6 +108,12 @@ Inductive reach : st -> graph -> Prop :=
 | reach_certified a o s g s' l g' : reach s g ->
     step_op_t idf a o s = Ok (s', l) -> run_prims g l = Some g' ->
     run_ok g l -> coupled idf s' g' -> J s' -> reach s' g'
+(* the same certificate with ANY stored workflow s' that the result is coupled to (the proof never uses where s'
+   comes from): for transactions on which the transaction model model/Graph.v lags behind the code in a
+   structural column (the `deferred` flag cleared by the trigger step_node_undefer_reattached, repo 84081f2,
+   which Graph.v does not have yet) the correspondence certifies with the state read off the replayed result *)
+| reach_certified_state l s g s' g' : reach s g -> run_prims g l = Some g' ->
+    run_ok g l -> coupled idf s' g' -> J s' -> reach s' g'
 | reach_tick s g g' : reach s g -> update_meta g = Some g' -> reach s g'
 (* finalize.revert_optional_steps at the end of a successful unrestricted phase: not a transaction of Graph.v's
    alphabet; FlagInv is PROVED for it (SchedRevert.revert_optional_sound), the stored workflow that the result
@@ -117,10 +123,12 @@ Inductive reach : st -> graph -> Prop :=
 
 Lemma reach_minv s g : reach s g -> minv s g.
 Proof.
-  induction 1 as [s g H | a o s g s' l g' _ IH Hp E Er | a o s g s' l g' _ IH E Er O C' HJ' | s g g' _ IH E
+  induction 1 as [s g H | a o s g s' l g' _ IH Hp E Er | a o s g s' l g' _ IH E Er O C' HJ'
+                  | l s g s' g' _ IH Er O C' HJ' | s g g' _ IH E
                   | s g s' _ IH Hfw C' HJ'].
   - exact H.
   - destruct (op_preserving_correct a o s g s' l IH Hp E) as [g2 [Er2 [_ H2]]]. congruence.
+  - eapply op_certified_correct; eassumption.
   - eapply op_certified_correct; eassumption.
   - destruct (tick_correct s g IH) as [g2 [E2 [_ [H2 _]]]]. congruence.
   - destruct IH as [_ [_ HF]]. split; [exact HJ'|]. split; [exact C'|].
